@@ -161,11 +161,12 @@ func c11Record(c *fw.Ctx) {
 // syscall log → file-system effects
 
 type fsEffect struct {
-	Kind  string // mkdir create write unlink rmdir rename
+	Kind  string // mkdir create create-keep write truncate unlink rmdir rename
 	Path  string
 	Path2 string
 	Data  []byte
-	ByFd  bool // unlink issued relative to a directory fd (one entry of a RemoveAll walk)
+	Off   int64 // write: file offset the data goes to (-1 = append); truncate: the new length
+	ByFd  bool  // unlink issued relative to a directory fd (one entry of a RemoveAll walk)
 }
 
 var reStrace = regexp.MustCompile(`^(\d+)\s+(\w+)\((.*)\)\s+= (-?\d+)`)
@@ -195,6 +196,7 @@ func c11Parse(logPath, base string) (*c11Trace, error) {
 	defer f.Close()
 	tr := &c11Trace{Ops: map[[2]int][]fsEffect{}}
 	fds := map[int]string{}
+	fdOff := map[int]int64{} // file offset of each descriptor (-1 = O_APPEND)
 	pending := map[string]string{}
 	cur := [2]int{-1, -1}
 	inOp := false
@@ -269,6 +271,10 @@ func c11Parse(logPath, base string) (*c11Trace, error) {
 			}
 			p := resolve(first, strs[0])
 			fds[ret] = p
+			fdOff[ret] = 0
+			if strings.Contains(args, "O_APPEND") {
+				fdOff[ret] = -1
+			}
 			if strings.Contains(args, "O_CREAT") || strings.Contains(args, "O_TRUNC") {
 				if strings.Contains(args, "O_TRUNC") {
 					add(fsEffect{Kind: "create", Path: p})
@@ -287,10 +293,19 @@ func c11Parse(logPath, base string) (*c11Trace, error) {
 				if len(data) != ret {
 					data = data[:min(ret, len(data))]
 				}
+				off := fdOff[n]
 				if name == "pwrite64" {
-					return nil, fmt.Errorf("unmodelled effect pwrite64 on %s", p)
+					// pwrite64(fd, data, count, offset): positional, the descriptor's offset stays
+					parts := strings.Split(args, ",")
+					o, err := strconv.ParseInt(strings.TrimSpace(parts[len(parts)-1]), 10, 64)
+					if err != nil {
+						return nil, fmt.Errorf("unmodelled pwrite64: %s", line)
+					}
+					off = o
+				} else if off >= 0 {
+					fdOff[n] = off + int64(ret)
 				}
-				add(fsEffect{Kind: "write", Path: p, Data: data})
+				add(fsEffect{Kind: "write", Path: p, Data: data, Off: off})
 			}
 		case "close":
 			n, _ := strconv.Atoi(first)
@@ -314,7 +329,22 @@ func c11Parse(logPath, base string) (*c11Trace, error) {
 				parts := strings.SplitN(args, ",", 4)
 				add(fsEffect{Kind: "rename", Path: resolve(strings.TrimSpace(parts[0]), strs[0]), Path2: resolve(strings.TrimSpace(parts[2]), strs[1])})
 			}
-		case "ftruncate", "truncate", "linkat", "symlinkat", "fallocate":
+		case "lseek":
+			n, _ := strconv.Atoi(first)
+			if p, ok := fds[n]; ok && strings.HasPrefix(p, base) {
+				fdOff[n] = int64(ret)
+			}
+		case "ftruncate":
+			n, _ := strconv.Atoi(first)
+			if p, ok := fds[n]; ok && strings.HasPrefix(p, base) {
+				parts := strings.Split(args, ",")
+				sz, err := strconv.ParseInt(strings.TrimSpace(parts[len(parts)-1]), 10, 64)
+				if err != nil {
+					return nil, fmt.Errorf("unmodelled ftruncate: %s", line)
+				}
+				add(fsEffect{Kind: "truncate", Path: p, Off: sz})
+			}
+		case "truncate", "linkat", "symlinkat", "fallocate":
 			n, _ := strconv.Atoi(first)
 			if p, ok := fds[n]; (ok && strings.HasPrefix(p, base)) || (len(strs) > 0 && strings.HasPrefix(strs[0], base)) {
 				return nil, fmt.Errorf("unmodelled effect %s: %s", name, line)
@@ -350,7 +380,23 @@ func (im fsImage) apply(e fsEffect, cut int) {
 		if cut >= 0 {
 			d = d[:cut]
 		}
-		im[e.Path] = append(append([]byte{}, im[e.Path]...), d...)
+		cur := im[e.Path]
+		off := int(e.Off)
+		if off < 0 || off > len(cur) {
+			off = len(cur) // append (a write beyond the end does not occur in the store)
+		}
+		nb := make([]byte, max(len(cur), off+len(d)))
+		copy(nb, cur)
+		copy(nb[off:], d) // an in-place write keeps the old bytes behind what was written so far
+		im[e.Path] = nb
+	case "truncate":
+		cur := im[e.Path]
+		switch {
+		case int(e.Off) <= len(cur):
+			im[e.Path] = append([]byte{}, cur[:e.Off]...)
+		default:
+			im[e.Path] = append(append([]byte{}, cur...), make([]byte, int(e.Off)-len(cur))...)
+		}
 	case "unlink", "rmdir":
 		delete(im, e.Path)
 	case "rename":
